@@ -70,7 +70,7 @@ func withField(r, f string) string {
 		// selecting a field of a value parameter: its pointers lead through that field
 		return rootInfo{base: ri.base, field: f, deep: true}.String()
 	}
-	if strings.HasPrefix(ri.base, "P") || strings.HasPrefix(ri.base, "FV") {
+	if paramLike(ri.base) {
 		ri.field = f
 		return ri.String()
 	}
@@ -96,4 +96,10 @@ func deepenSet(s strset) strset {
 		out.add(deepen(r))
 	}
 	return out
+}
+
+// paramLike: the base names an object handed in from outside the activation: a parameter, the cell
+// of a captured variable, or the value of a captured variable.
+func paramLike(base string) bool {
+	return strings.HasPrefix(base, "P") || strings.HasPrefix(base, "FV") || strings.HasPrefix(base, "W")
 }
